@@ -533,7 +533,15 @@ def region3_state(I, rng, satd):
     return None
 
 
-# ------------------------------------------------------------------ run
+# ------------------------------------------------------------------ translate + run
+
+def translate(ctx):
+    """regenerate the Lean definitions from the current source; raises TranslateError on anything outside the subset"""
+    changed = thermo.generate(core.REPO, core.LEAN, which=('iapws',))
+    if changed:
+        ctx.notes.append('regenerated ' + ', '.join(changed))
+
+
 
 def run(ctx, scale=1.0, oracle_only=False):
     I = load_real('IAPWS97')
